@@ -465,6 +465,11 @@ class NumpyCodegenMapper(CachedMapper[str, Never, []]):
                             if are_shape_components_equal(dim, idx.stop)
                             else idx.stop)
                 else:
+                    if isinstance(idx.start, int) and idx.start < 0:
+                        # normalized start -1 with a negative step: the slice is
+                        # empty, whereas a literal -1 would mean the last element
+                        return ast.Slice(lower=_constant(0), upper=_constant(0))
+
                     start = (None
                              if are_shape_components_equal(dim-1, idx.start)
                              else idx.start)
